@@ -31,6 +31,7 @@ type c07Def struct {
 	PTemps int      `json:"parse_temps"`      // _.field shorthands
 	ETemps int      `json:"emit_temps"`       // matches that bind a payload
 	Anchor string   `json:"anchor,omitempty"` // extras: the base definition they are placed right after once
+	Before bool     `json:"before,omitempty"` // ... right before it instead
 }
 
 func c07GenPool(rng *Rng, n int, tag string) []c07Def {
@@ -38,8 +39,16 @@ func c07GenPool(rng *Rng, n int, tag string) []c07Def {
 	var recs, unions, funs []int // indices
 	for i := 0; i < n; i++ {
 		id := fmt.Sprintf("%s%d", tag, i)
-		k := rng.Intn(16)
+		k := rng.Intn(17)
 		switch {
+		case k == 16 && i+1 < n:
+			// an external function declared here; an unrelated earlier declaration of the same name with
+			// another type (and a use of it) may precede: the later declaration is the one in force
+			ds = append(ds, c07Def{Name: "px" + id, Kind: "type", Text: fmt.Sprintf("package_info extq%s =\n  let Spr%s: int->string\n", id, id)})
+			ds = append(ds, c07Def{Name: "sn" + id, Kind: "let", Refs: []string{"px" + id},
+				Text: fmt.Sprintf("let sn%s n =\n  extq%s.Spr%s n\n", id, id, id)})
+			funs = append(funs, len(ds)-1)
+			i++
 		case k == 14 && len(recs) > 0:
 			// a field access on a parameter that nothing types (fc leaves it unresolved, whatever records exist)
 			r := ds[Choose(rng, recs)]
@@ -507,8 +516,8 @@ func c07Histories(rng *Rng, base, extra []c07Def, n int) []*c07History {
 		case 2:
 			seq = append([]c07Def{}, base...)
 			for _, e := range extra {
-				if rng.Bool() {
-					continue
+				if rng.Bool() || e.Before {
+					continue // (an extra that is unrelated only BEFORE its anchor goes there, see insert-adjacent)
 				}
 				// an unrelated definition may go anywhere after its own references
 				pos := 0
@@ -582,6 +591,10 @@ func runC07(c *Ctx) {
 				id := strings.TrimSuffix(strings.TrimSuffix(strings.TrimPrefix(d.Name, "Tw"), "z"), "a")
 				e = append(e, c07Def{Name: fmt.Sprintf("fnx%d_%d", i, di), Kind: "let", Refs: []string{d.Name},
 					Text: fmt.Sprintf("let fnx%d_%d (a:int) =\n  {TX%s=a; TY%s=7}\n", i, di, id, id)})
+			case strings.HasPrefix(d.Name, "px"):
+				id := strings.TrimPrefix(d.Name, "px")
+				e = append(e, c07Def{Name: fmt.Sprintf("bn%d_%d", i, di), Kind: "let", Anchor: d.Name, Before: true,
+					Text: fmt.Sprintf("package_info extq%s =\n  let Spr%s: string->string\n\nlet bn%d_%d (s:string) =\n  extq%s.Spr%s s\n", id, id, i, di, id, id)})
 			case strings.HasPrefix(d.Name, "Cf"):
 				id := strings.TrimPrefix(d.Name, "Cf")
 				e = append(e, c07Def{Name: fmt.Sprintf("pkg%d_%d", i, di), Kind: "type", Anchor: d.Name,
@@ -610,8 +623,11 @@ func runC07(c *Ctx) {
 			}
 			var seq []c07Def
 			for _, d := range b {
+				if d.Name == x.Anchor && x.Before {
+					seq = append(seq, x)
+				}
 				seq = append(seq, d)
-				if d.Name == x.Anchor {
+				if d.Name == x.Anchor && !x.Before {
 					seq = append(seq, x)
 				}
 			}
@@ -765,7 +781,9 @@ func runC07(c *Ctx) {
 		for ji := 0; ji < len(jobs) && ji < c.Pick(12, 200); ji++ {
 			n := 0
 			for _, h := range jobs[ji].hs {
-				if len(h.Files) > 1 && (h.Kind == "foi-between" || n < 2) {
+				// (single-file histories with an anchored insertion too: a fresh process per history, no state of
+				// the long-lived in-process server can mask a dependence on what was translated before)
+				if h.Kind == "insert-adjacent" || len(h.Files) > 1 && (h.Kind == "foi-between" || n < 2) {
 					pjs = append(pjs, pj{ji, h})
 					n++
 				}
